@@ -404,6 +404,29 @@ type Env struct {
 	nDev       int
 	// OwnerRole names the cached key (see Key) the owner service signs with: "owner" unless made by NewWithOwner.
 	OwnerRole string
+	// Opt holds the optional settings of NewWithOptions (zero value: the defaults of New).
+	Opt Options
+}
+
+// Options are optional deployment settings; the zero value is what New builds.
+type Options struct {
+	// OwnerRole: see NewWithOwner ("" = "owner").
+	OwnerRole string
+	// Extra lists further key types: the deployment registers a manufacturer key and an owner key of each of them (next to
+	// Spec's), so that devices of several key types can be manufactured and onboarded by the one deployment. With Extra
+	// set, the RSA size of the manufacturer key for a device is taken from the size of the device's own (CSR) key.
+	Extra []KeySpec
+	// PoolConns leaves database/sql's default connection pool in place (sqlite.Open's own behaviour) instead of the
+	// single connection every other deployment uses.
+	PoolConns bool
+}
+
+// NewWithOptions is New with optional settings.
+func NewWithOptions(baseDir string, spec KeySpec, opt Options) (*Env, error) {
+	if opt.OwnerRole == "" {
+		opt.OwnerRole = "owner"
+	}
+	return newEnv(baseDir, spec, opt)
 }
 
 var dirSeq int
@@ -414,6 +437,11 @@ func New(baseDir string, spec KeySpec) (*Env, error) { return NewWithOwner(baseD
 
 // NewWithOwner is New with the owner service's key taken from another role ("owner2": the buyer in a resale).
 func NewWithOwner(baseDir string, spec KeySpec, ownerRole string) (*Env, error) {
+	return newEnv(baseDir, spec, Options{OwnerRole: ownerRole})
+}
+
+func newEnv(baseDir string, spec KeySpec, opt Options) (*Env, error) {
+	ownerRole := opt.OwnerRole
 	dirMu.Lock()
 	dirSeq++
 	dir := filepath.Join(baseDir, fmt.Sprintf("env-%d-%d", os.Getpid(), dirSeq))
@@ -421,7 +449,7 @@ func NewWithOwner(baseDir string, spec KeySpec, ownerRole string) (*Env, error) 
 	if err := os.MkdirAll(dir, 0o755); err != nil {
 		return nil, err
 	}
-	e := &Env{Dir: dir, File: filepath.Join(dir, "fdo.db"), Spec: spec, Journal: &Journal{}, OwnerRole: ownerRole}
+	e := &Env{Dir: dir, File: filepath.Join(dir, "fdo.db"), Spec: spec, Journal: &Journal{}, OwnerRole: ownerRole, Opt: opt}
 	if err := e.open(true); err != nil {
 		return nil, err
 	}
@@ -434,7 +462,9 @@ func (e *Env) open(first bool) error {
 	if err != nil {
 		return err
 	}
-	db.DB().SetMaxOpenConns(1)
+	if !e.Opt.PoolConns {
+		db.DB().SetMaxOpenConns(1)
+	}
 	// the single connection skips fsync: the harness never crashes the operating system, and restarts reopen the file
 	_, _ = db.DB().Exec("PRAGMA synchronous=OFF")
 	e.DB = db
@@ -445,6 +475,15 @@ func (e *Env) open(first bool) error {
 		}
 		if err := db.AddOwnerKey(e.Spec.Type, ok, Chain(ok, e.OwnerRole)); err != nil {
 			return err
+		}
+		for _, x := range e.Opt.Extra {
+			mk, ok := Key(x, "mfg"), Key(x, e.OwnerRole)
+			if err := db.AddManufacturerKey(x.Type, mk, Chain(mk, "mfg")); err != nil {
+				return err
+			}
+			if err := db.AddOwnerKey(x.Type, ok, Chain(ok, e.OwnerRole)); err != nil {
+				return err
+			}
 		}
 		e.devCA = Key(P384, "devca")
 		e.devCAChain = SelfSigned(e.devCA, "device CA")
@@ -457,7 +496,13 @@ func (e *Env) open(first bool) error {
 		Session: db, Vouchers: st,
 		SignDeviceCertificate: custom.SignDeviceCertificate(e.devCA, e.devCAChain),
 		DeviceInfo: func(ctx context.Context, info *custom.DeviceMfgInfo, _ []*x509.Certificate) (string, protocol.PublicKey, error) {
-			k, chain, err := db.ManufacturerKey(ctx, info.KeyType, e.Spec.Bits)
+			bits := e.Spec.Bits
+			if len(e.Opt.Extra) > 0 {
+				if pub, isRSA := info.CertInfo.PublicKey.(*rsa.PublicKey); isRSA {
+					bits = pub.N.BitLen()
+				}
+			}
+			k, chain, err := db.ManufacturerKey(ctx, info.KeyType, bits)
 			if err != nil {
 				return "", protocol.PublicKey{}, err
 			}
